@@ -19,8 +19,16 @@ pub struct Uint<const BITS: usize, const LIMBS: usize> { pub
 
 //@ include lib/uint_spec.rs
 //@ include lib/uint_ops.rs
+//@ extract src/algorithms/gcd/matrix.rs struct Matrix
+pub struct Matrix(pub u64, pub u64, pub u64, pub u64, pub bool);
+//@ end
+pub type LehmerMatrix = Matrix;
 //@ include lib/lehmer_spec.rs
 //@ include lib/lehmer.rs
+impl Matrix {
+//@ import lehmer IDENTITY
+//@ import lehmer apply
+}
 //@ include lib/sgcd.rs
 
 //@ import gcd gcd
